@@ -5153,7 +5153,10 @@ class PyCdlib:
                         if child.file_ident == iso9660_name:
                             # Python 3.4 doesn't support substitution with a byte
                             # array, so we do it as a string and encode to bytes.
-                            iso9660_name = name + ('%03d' % (index)).encode()
+                            # (Cut the name so that the result still obeys
+                            # the limit of the interchange level.)
+                            maxlen = 8 if self.interchange_level == 1 else 207
+                            iso9660_name = name[:maxlen - 3] + ('%03d' % (index)).encode()
                             index += 1
                             break
                     else:
